@@ -73,7 +73,8 @@ def gen_history(rng, maxlen, minlen, nops, flavour):
             nextv += 1
         else:
             k = rng.choice([0, 2, 2, 3, cap, cap + 1, cap + 2])
-            lines.append(("pubn " + " ".join(str(nextv + i) for i in range(k))).strip())
+            # batch from a vector (pubn) or from a single-pass input iterator (pubi)
+            lines.append((rng.choice(["pubn ", "pubi "]) + " ".join(str(nextv + i) for i in range(k))).strip())
             nextv += k
 
     def sub_step(ent):
@@ -242,7 +243,7 @@ def exhaustive_windows():
                                 lines.append("pub %d" % v[0]); v[0] += 1
                             elif op.startswith("pubn"):
                                 k = int(op[4:])
-                                lines.append("pubn " + " ".join(str(v[0] + i) for i in range(k))); v[0] += k
+                                lines.append(("pubi " if (v[0] + k) % 2 else "pubn ") + " ".join(str(v[0] + i) for i in range(k))); v[0] += k
                             elif op == "kick":
                                 lines.append("kick 0")
                             else:
@@ -369,6 +370,47 @@ def exhaustive_rfor():
     return cases
 
 
+def exhaustive_copy_waiting():
+    """a copy taken while the original is inside next(): waiting (parked by hand, as a coroutine, in a blocking call, in a
+    range-for), woken but not yet fetched, or between ready() and check_next(); then every short sequence of queue-wide
+    operations; the copy must continue from the original's position like any subscriber"""
+    T = ["pub", "pubn3", "close", "kick 0", "kick 1"]
+    seqs = [[]] + [[a] for a in T] + [[a, b] for a in T for b in T]
+    cases = []
+    for m in "abr":
+        for mx in (0, 2):
+            for pre in (0, 1):
+                for how in ("sus", "co", "blk bool", "blk it", "rfor", "sus-woken", "rdy-yes"):
+                    for sq in seqs:
+                        v = 1
+                        lines = ["case 0 pub %d 1" % mx, "sub 0 %s" % m]
+                        if pre:
+                            lines += ["pub %d" % v, "poll 0"]; v += 1
+                        if how == "sus-woken":
+                            lines += ["sus 0", "pub %d" % v]; v += 1
+                        elif how == "rdy-yes":
+                            lines += ["pub %d" % v, "rdy 0"]; v += 1
+                        elif how == "rfor":
+                            lines.append("rfor 0")
+                        elif how.startswith("blk"):
+                            lines.append("blk 0 %s" % how.split()[1])
+                        else:
+                            lines.append("%s 0" % how)
+                        lines.append("copy 1 0")
+                        for op in sq:
+                            if op == "pub":
+                                lines.append("pub %d" % v); v += 1
+                            elif op == "pubn3":
+                                lines.append("pubi %d %d %d" % (v, v + 1, v + 2)); v += 3
+                            else:
+                                lines.append(op)
+                        if how in ("sus", "sus-woken", "rdy-yes"):
+                            lines.append("res 0")
+                        lines += ["poll 1", "poll 1", "co 1", "pub %d" % v, "poll 0", "end"]
+                        cases.append({"id": 0, "lines": lines})
+    return cases
+
+
 class PubSuite(Suite):
     name = "pub-steps"
     harness = HARNESS
@@ -386,6 +428,8 @@ class PubSuite(Suite):
             cases = rng.sample(cases, 700)
             reent = rng.sample(reent, 500)
         cases += reent
+        cw = exhaustive_copy_waiting()
+        cases += rng.sample(cw, 600) if tier == "quick" else cw
         rf = exhaustive_rfor()
         cases += rng.sample(rf, 600) if tier == "quick" else rf
         stale = exhaustive_stale_kick()
@@ -413,7 +457,7 @@ class PubSuite(Suite):
         closed = False
         subs = {}
         cnt = {"values": 0, "parks": 0, "wakes": 0, "eof_closed": 0, "eof_kicked": 0, "eof_lag": 0, "eof_uncovered": 0,
-               "bad": 0, "window_ops": 0, "reentrant": 0, "stale_kicks": 0, "rfor_items": 0}
+               "bad": 0, "window_ops": 0, "reentrant": 0, "stale_kicks": 0, "rfor_items": 0, "copies_of_waiting": 0}
         in_window = {}       # sid -> ops seen since its rdy returned 0
 
         def fetched(s, txt, pos):
@@ -549,10 +593,10 @@ class PubSuite(Suite):
                 cnt["bad"] += 1
                 continue
             k = w[0]
-            if k in ("pub", "pubn", "close", "destroy", "end", "kick", "kickme"):
+            if k in ("pub", "pubn", "pubi", "close", "destroy", "end", "kick", "kickme"):
                 if k == "pub":
                     stream.append(int(w[1]))
-                elif k == "pubn":
+                elif k in ("pubn", "pubi"):
                     stream.extend(int(x) for x in w[1:])
                 elif k in ("close", "destroy", "end"):
                     closed = True
@@ -588,8 +632,14 @@ class PubSuite(Suite):
                 if k == "copy":
                     src = subs[int(w[2])]
                     mode, covered = src.mode, src.covered
-                    if pos != src.pos:
-                        msgs.append("copy: copy %d of subscriber %d starts at %d, the original is at %d" % (sid, src.sid, pos, src.pos))
+                    # a waiting original stands at the position of the value that is not yet published: the copy starts at
+                    # the last published one (and will receive the value the original waits for)
+                    want = min(src.pos, len(stream))
+                    if src.parked:
+                        cnt["copies_of_waiting"] += 1
+                    if pos != want:
+                        msgs.append("copy: copy %d of subscriber %d starts at %d, the original is at %d (published %d)"
+                                    % (sid, src.sid, pos, src.pos, len(stream)))
                     # window test again: the window may have moved since the original subscribed
                     covered = min(maxlen or 10 ** 9, len(stream) - pos + 1, len(stream)) <= qlen
                 else:
@@ -704,7 +754,7 @@ class ThreadSuite(Suite):
     corpus_prefix = None
     chunk = 4
     timeout = 120
-    nontrivial_rule = "every case (publisher thread + 1..4 subscriber threads)"
+    nontrivial_rule = "every case (publisher thread + 1..5 subscriber threads; styles bool / ! / range-for / iterator / polling by index)"
 
     def gen_cases(self, rng, tier):
         n = 160 if tier == "quick" else 10000
@@ -715,7 +765,7 @@ class ThreadSuite(Suite):
             else:
                 maxlen = rng.randint(1, 5)
                 minlen = rng.randint(1, maxlen)
-            modes = "".join(rng.choice("aabr") for _ in range(rng.randint(1, 4)))
+            modes = "".join(rng.choice("aabr") for _ in range(rng.randint(1, 5)))
             cases.append({"id": 0, "lines": ["case 0 thr %d %d %d %d %s" % (maxlen, minlen, rng.choice([50, 300, 1500] if tier == "quick" else [50, 300, 1500, 6000]),
                                                                              rng.choice([1, 1, 3, 6]), modes), "end"]})
         return cases
@@ -736,6 +786,155 @@ class ThreadSuite(Suite):
             for m in c["lines"][0].split()[7]:
                 modes[m] = modes.get(m, 0) + 1
         return {"subscriber_threads_by_mode": modes, "cases": len(cases)}
+
+
+BATON_HARNESS = ("h_publisher_t", ["h_publisher_t.cpp"], {"extra_flags": ["-fno-access-control", "-I/verif/harness/shim"]})
+
+
+class BatonSuite(Suite):
+    """publisher thread against subscriber threads / coroutine subscribers under the baton scheduler (harness/shim): the
+    windows inside the library calls are scheduling points, chosen by the `sched` line, so a lost wake-up or a torn
+    hand-over is reached deterministically.  The statement is evaluated on the trace (no model comparison: the theorems
+    already quantify over every interleaving of the lock regions; this suite shows the real code keeps the property when
+    the other thread runs inside those windows)."""
+    name = "pub-baton"
+    harness = BATON_HARNESS
+    driver = None
+    compare = False
+    corpus_prefix = "c16t_"
+    chunk = 25
+    timeout = 240
+    nontrivial_rule = "at least one consumer received a value"
+    STYLES = ["co", "co", "loop", "blk", "not", "rfor", "poll"]
+
+    def gen_cases(self, rng, tier):
+        n = 500 if tier == "quick" else 30000
+        cases = []
+        for i in range(n):
+            if rng.random() < 0.35:
+                mx, mn = 0, 1
+            else:
+                mx = rng.randint(1, 5)
+                mn = rng.randint(1, mx)
+            ncons = rng.randint(1, 3)
+            lines = ["case 0 pubt %d %d" % (mx, mn)]
+            pops = []
+            for _ in range(rng.randint(2, 10)):
+                r = rng.random()
+                pops.append("s" if r < 0.6 else "%s%d" % (rng.choice("bi"), rng.randint(2, 4)))
+            r = rng.random()
+            if r < 0.4:
+                pops.append("c")
+            elif r < 0.6:
+                pops.append("d")
+            lines.append("p " + " ".join(pops))
+            for _ in range(ncons):
+                lines.append("c %s %s" % (rng.choice(self.STYLES), rng.choice("aaabr")))
+            # schedule: runs of one thread of random length (a window usually needs the other thread twice in a row)
+            sched = []
+            while len(sched) < rng.randint(60, 300):
+                sched += [rng.randint(0, ncons)] * rng.choice([1, 1, 2, 2, 3, 5, 9])
+            lines.append("sched " + " ".join(map(str, sched)))
+            lines.append("end")
+            cases.append({"id": 0, "lines": lines})
+        return cases
+
+    @staticmethod
+    def parse(case, out):
+        hdr = case["lines"][0].split()
+        mx = int(hdr[3])
+        total = 0
+        cons = []
+        for l in case["lines"][1:]:
+            w = l.split()
+            if w[0] == "p":
+                for op in w[1:]:
+                    total += 1 if op == "s" else int(op[1:]) if op[0] in "bi" else 0
+            elif w[0] == "c":
+                cons.append({"style": w[1], "mode": w[2], "got": [], "eof": None, "fin": False})
+        return mx, total, cons
+
+    def oracle(self, case, out):
+        msgs = []
+        mx, total, cons = self.parse(case, out)
+        for l in out:
+            w = l.split()
+            if not w:
+                continue
+            if w[0] == "deadlock":
+                stuck = [x for x in out if x.startswith("stuck ")]
+                msgs.append("close-no-wake: nothing can run but consumers are still waiting (lost wake-up): %s" % "; ".join(stuck))
+            elif w[0] == "crash" or w[0] == "assert-failed":
+                msgs.append("crash: %s" % l)
+            elif w[0] == "n":
+                c = cons[int(w[1]) - 1]
+                txt, _, pos = w[2].partition("@")
+                if txt == "eof":
+                    c["eof"] = int(pos)
+                else:
+                    if c["eof"] is not None:
+                        msgs.append("after-eof: consumer %s received a value after end of stream" % w[1])
+                    c["got"].append((int(txt[2:]), int(pos)))
+            elif w[0] == "fin":
+                cons[int(w[1]) - 1]["fin"] = True
+        dead = any(l.startswith("deadlock") or l.startswith("crash") for l in out)
+        for i, c in enumerate(cons, 1):
+            prev = 0
+            for k, (v, pos) in enumerate(c["got"], 1):
+                if pos <= prev:
+                    msgs.append("position: consumer %d position went %d -> %d (must strictly increase)" % (i, prev, pos))
+                prev = pos
+                if v < 1 or v > total:
+                    msgs.append("wrong-value: consumer %d received %d, published 1..%d" % (i, v, total))
+                if c["mode"] == "a":
+                    if v != k or pos != k:
+                        kind = "duplicate" if any(v == g[0] for g in c["got"][:k - 1]) else "gap"
+                        msgs.append("%s: all_values consumer %d received %s (value@position), expected %d@%d as its %d. value"
+                                    % (kind, i, "%d@%d" % (v, pos), k, k, k))
+                        break
+                elif v < pos:
+                    msgs.append("stale-value: consumer %d (mode %s) at position %d received the older value %d" % (i, c["mode"], pos, v))
+            if not dead:
+                if not c["fin"] or c["eof"] is None:
+                    msgs.append("close-no-wake: consumer %d (%s) never left its loop although the publisher is gone" % (i, c["style"]))
+                elif c["mode"] == "a" and len(c["got"]) != total and mx == 0:
+                    msgs.append("early-eof: all_values consumer %d on an unlimited queue got end of stream after %d of %d values"
+                                % (i, len(c["got"]), total))
+                elif c["mode"] == "a" and len(c["got"]) != total and total - len(c["got"]) <= mx and False:
+                    pass
+        return msgs
+
+    def nontrivial(self, case, out):
+        return any(l.startswith("n ") and " v:" in l for l in out)
+
+    def stats(self, cases, outs):
+        styles, modes, pops = {}, {}, {}
+        repeats = values = 0
+        for c in cases:
+            for l in c["lines"][1:]:
+                w = l.split()
+                if w[0] == "c":
+                    styles[w[1]] = styles.get(w[1], 0) + 1
+                    modes[w[2]] = modes.get(w[2], 0) + 1
+                elif w[0] == "p":
+                    for op in w[1:]:
+                        k = op[0]
+                        pops[k] = pops.get(k, 0) + 1
+            try:
+                _, _, cons = self.parse(c, [])
+                last = {}
+                for l in outs.get(str(c["id"]), []):
+                    w = l.split()
+                    if w and w[0] == "n" and w[2].startswith("v:"):
+                        values += 1
+                        v = int(w[2].partition("@")[0][2:])
+                        if cons[int(w[1]) - 1]["mode"] == "r" and last.get(w[1]) == v:
+                            repeats += 1
+                        last[w[1]] = v
+            except Exception:
+                pass
+        return {"consumer_styles": styles, "modes": modes, "publisher_ops": pops, "values_received": values,
+                "skip_to_recent_same_newest_value_twice(position still increasing; not forbidden by the statement)": repeats}
 
 
 class C16(Spec):
@@ -768,7 +967,7 @@ class C16(Spec):
                    "live subscriber objects have distinct addresses (kick identifies by address)"]
 
     def suites(self):
-        return [PubSuite(), ThreadSuite()]
+        return [PubSuite(), ThreadSuite(), BatonSuite()]
 
 
 SPEC = C16()
